@@ -224,10 +224,21 @@ def build_optimized_pattern(choices: list[ChoiceChoice], repeat: str = "") -> st
             case UnicodePropertyRule(expression=RegexExpression(pattern=pattern)):
                 unicode_props.append(pattern)
             case ChoiceLiteral(value=val, case=ChoiceCase.INSENSITIVE) if len(val) == 1:
-                char_class_parts.append(val.upper())
-                char_class_parts.append(val.lower())
+                # Only ASCII letters are matched case insensitively.
+                if val.isascii():
+                    char_class_parts.append(val.upper())
+                    char_class_parts.append(val.lower())
+                else:
+                    char_class_parts.append(val)
             case ChoiceLiteral(value=val, case=ChoiceCase.INSENSITIVE):
-                multi_parts.append(f"(?i:{re.escape(val)})")
+                multi_parts.append(
+                    "".join(
+                        f"[{ch.upper()}{ch.lower()}]"
+                        if ch.isascii() and ch.isalpha()
+                        else re.escape(ch)
+                        for ch in val
+                    )
+                )
             case ChoiceLiteral(value=val, case=ChoiceCase.SENSITIVE) if len(val) == 1:
                 char_class_parts.append(val)
             case ChoiceLiteral(value=val, case=ChoiceCase.SENSITIVE):
